@@ -67,15 +67,16 @@ VARIABLES
   rfs,        \* receiver framing state
   rcur,       \* receiver: units of the current frame consumed so far / frame record
   delivered,  \* messages delivered to onMessage: [id, bin, len]
-  frames      \* history: frame records in the order the sender produced them [mid, op, fin, len, ctl]
+  frames,     \* history: frame records in the order the sender produced them [mid, op, fin, len, ctl]
+  closing     \* the sender has called sendClose(): its close frame went the way of every other frame (sendData); no further sends
 
-vars == <<sent, refused, sstate, scur, queue, triggered, wire, rpos, rfs, rcur, delivered, frames>>
+vars == <<sent, refused, sstate, scur, queue, triggered, wire, rpos, rfs, rcur, delivered, frames, closing>>
 
 NoMsg == [id |-> 0]
 
 Init == /\ sent = <<>> /\ refused = {} /\ sstate = "ground" /\ scur = NoMsg
         /\ queue = <<>> /\ triggered = FALSE /\ wire = <<>> /\ rpos = 0
-        /\ rfs = Ground /\ rcur = 0 /\ delivered = <<>> /\ frames = <<>>
+        /\ rfs = Ground /\ rcur = 0 /\ delivered = <<>> /\ frames = <<>> /\ closing = FALSE
 
 NextId == Len(sent) + Cardinality(refused) + 1
 
@@ -116,7 +117,7 @@ FrameRecs(mid, bin, fs) ==
                          fin |-> fs[k].fin, len |-> fs[k].len, ctl |-> FALSE]]
 
 SendMessage(len, bin, frag, sync, chop) ==
-  /\ sstate = "ground" /\ NextId <= MaxMsgs
+  /\ sstate = "ground" /\ NextId <= MaxMsgs /\ ~closing
   /\ IF Limit > 0 /\ len > Limit
      THEN /\ refused' = refused \cup {NextId}            \* PayloadExceededError, nothing written
           /\ UNCHANGED <<sent, queue, triggered, wire, frames>>
@@ -127,15 +128,15 @@ SendMessage(len, bin, frag, sync, chop) ==
              /\ queue' = st.q /\ triggered' = st.t /\ wire' = st.w
              /\ frames' = frames \o FrameRecs(id, bin, fs)
              /\ UNCHANGED refused
-  /\ UNCHANGED <<sstate, scur, rpos, rfs, rcur, delivered>>
+  /\ UNCHANGED <<sstate, scur, rpos, rfs, rcur, delivered>> /\ UNCHANGED closing
 
 \* ---- streaming API (frame payload is supplied exactly; header is written by sendData(header), data by sendData(data, sync))
 BeginMessage(len, bin) ==
-  /\ sstate = "ground" /\ NextId <= MaxMsgs
+  /\ sstate = "ground" /\ NextId <= MaxMsgs /\ ~closing
   /\ sstate' = "msg"
   /\ scur' = [id |-> NextId, bin |-> bin, len |-> len, left |-> len, fr |-> 0, fleft |-> 0]
   /\ sent' = Append(sent, [id |-> NextId, bin |-> bin, len |-> len, api |-> "stream"])
-  /\ UNCHANGED <<refused, queue, triggered, wire, rpos, rfs, rcur, delivered, frames>>
+  /\ UNCHANGED <<refused, queue, triggered, wire, rpos, rfs, rcur, delivered, frames>> /\ UNCHANGED closing
 
 BeginFrame(n) ==
   /\ sstate = "msg" /\ n <= scur.left /\ n > 0
@@ -145,7 +146,7 @@ BeginFrame(n) ==
                                fin |-> FALSE, len |-> n, ctl |-> FALSE])
   /\ scur' = [scur EXCEPT !.fr = scur.fr + 1, !.fleft = n, !.left = scur.left - n]
   /\ sstate' = "frame"
-  /\ UNCHANGED <<sent, refused, rpos, rfs, rcur, delivered>>
+  /\ UNCHANGED <<sent, refused, rpos, rfs, rcur, delivered>> /\ UNCHANGED closing
 
 FrameData(k, sync) ==
   /\ sstate = "frame" /\ k >= 1 /\ k <= scur.fleft
@@ -153,7 +154,7 @@ FrameData(k, sync) ==
      IN queue' = st.q /\ triggered' = st.t /\ wire' = st.w
   /\ scur' = [scur EXCEPT !.fleft = scur.fleft - k]
   /\ sstate' = IF k = scur.fleft THEN "msg" ELSE "frame"
-  /\ UNCHANGED <<sent, refused, rpos, rfs, rcur, delivered, frames>>
+  /\ UNCHANGED <<sent, refused, rpos, rfs, rcur, delivered, frames>> /\ UNCHANGED closing
 
 EndMessage ==
   /\ sstate = "msg" /\ scur.left = 0
@@ -163,7 +164,18 @@ EndMessage ==
   /\ frames' = Append(frames, [mid |-> scur.id, op |-> IF scur.fr = 0 THEN (IF scur.bin THEN 2 ELSE 1) ELSE 0,
                                fin |-> TRUE, len |-> 0, ctl |-> FALSE])
   /\ sstate' = "ground" /\ scur' = NoMsg
-  /\ UNCHANGED <<sent, refused, rpos, rfs, rcur, delivered>>
+  /\ UNCHANGED <<sent, refused, rpos, rfs, rcur, delivered>> /\ UNCHANGED closing
+
+\* ---- sendClose(): the close frame is queued behind whatever is still waiting (sendFrame -> sendData like any frame); the pump
+\* keeps writing while the connection is closing (only a CLOSED connection stops it), so everything sent before is delivered
+CloseId == MaxMsgs + 1
+SendClose ==
+  /\ sstate = "ground" /\ ~closing
+  /\ closing' = TRUE
+  /\ LET st == SendData(queue, triggered, wire, <<[mid |-> CloseId, fr |-> 1, last |-> TRUE]>>, FALSE, 0)
+     IN queue' = st.q /\ triggered' = st.t /\ wire' = st.w
+  /\ frames' = Append(frames, [mid |-> CloseId, op |-> 8, fin |-> TRUE, len |-> 0, ctl |-> TRUE])
+  /\ UNCHANGED <<sent, refused, sstate, scur, rpos, rfs, rcur, delivered>>
 
 \* ---- the send queue pump (_send)
 Pump ==
@@ -171,7 +183,7 @@ Pump ==
   /\ IF Len(queue) > 0
      THEN /\ wire' = Append(wire, Head(queue)) /\ queue' = Tail(queue) /\ UNCHANGED triggered
      ELSE /\ triggered' = FALSE /\ UNCHANGED <<queue, wire>>
-  /\ UNCHANGED <<sent, refused, sstate, scur, rpos, rfs, rcur, delivered, frames>>
+  /\ UNCHANGED <<sent, refused, sstate, scur, rpos, rfs, rcur, delivered, frames>> /\ UNCHANGED closing
 
 \* ---- receiver: consume the next piece; a frame is complete with its last piece
 FrameOf(p) == SelectSeq(frames, LAMBDA g : g.mid = p.mid)[p.fr]
@@ -185,10 +197,10 @@ Recv ==
               nfs == Framing(rfs, f)
           IN /\ rfs' = nfs
              /\ rcur' = rcur
-             /\ IF nfs # Bad /\ f.fin
+             /\ IF nfs # Bad /\ f.fin /\ ~f.ctl
                 THEN delivered' = Append(delivered, [id |-> f.mid])
                 ELSE UNCHANGED delivered
-  /\ UNCHANGED <<sent, refused, sstate, scur, queue, triggered, wire, frames>>
+  /\ UNCHANGED <<sent, refused, sstate, scur, queue, triggered, wire, frames>> /\ UNCHANGED closing
 
 Next ==
   \/ \E len \in Lens, bin \in BOOLEAN, frag \in Frags, sync \in BOOLEAN, chop \in Chops : SendMessage(len, bin, frag, sync, chop)
@@ -196,6 +208,7 @@ Next ==
   \/ \E n \in Lens : BeginFrame(n)
   \/ \E k \in Lens, sync \in BOOLEAN : FrameData(k, sync)
   \/ EndMessage
+  \/ SendClose
   \/ Pump
   \/ Recv
 
@@ -227,5 +240,7 @@ QueueOnlyWhileTriggered == Len(queue) > 0 => triggered
 HasFin(id) == \E i \in 1..Len(frames) : frames[i].mid = id /\ frames[i].fin
 IsDelivered(id) == \E i \in 1..Len(delivered) : delivered[i].id = id
 EventuallyDelivered == \A id \in 1..MaxMsgs : HasFin(id) ~> IsDelivered(id)
+\* the close frame is the last thing this sender ever puts on the wire
+NothingAfterClose == \A i \in 1..Len(wire) : wire[i].mid = CloseId => i = Len(wire) /\ Len(queue) = 0
 AllDeliveredWhenQuiet == (sstate = "ground" /\ ~triggered /\ rpos = Len(wire) /\ Len(queue) = 0) => Ids(delivered) = Ids(sent)
 =============================================================================
